@@ -8,8 +8,8 @@ MANIFEST_TEXT = (
     "threshold constants are regenerated from fmatrixev.hh on every run: the 2x2 closed form returns the ordered roots "
     "of the characteristic polynomial summing to the trace (ev2_roots); with the code's identity threshold the returned "
     "vectors are unit, orthogonal eigenvectors in the general branch and have residual below the threshold in the "
-    "special case (ev2_vectors, ev2_vectors_ident); the whole 2x2 routine including its threshold is invariant under "
-    "scaling of the matrix (ev2_scale_invariant); cross products of two rows of A-lambda*I lie in its kernel and eig0 "
+    "special case (ev2_vectors, ev2_vectors_ident); the whole 2x2 routine (max-norm preconditioning, closed form, "
+    "threshold, column choice) is exactly equivariant under scaling of the matrix (ev2_scale_invariant); cross products of two rows of A-lambda*I lie in its kernel and eig0 "
     "returns a unit eigenvector in the rank-2 case; the 3x3 values are ascending, sum to the trace, scale exactly with "
     "the matrix, and are roots of the characteristic polynomial for diagonal matrices and in the trigonometric branch "
     "(ev3_roots_partial, assuming |det B|/2 <= 1); the row-major/column-major hand-over to LAPACK is a transposition "
@@ -25,9 +25,9 @@ MANIFEST_NOTE = (
     "as real functions).  Trusted: Lean kernel (+propext/Classical.choice/Quot.sound), Mathlib, tr_c08.py, the "
     "hand-written control flow of the model (tied by bit-exact differential runs on exact inputs only), LAPACK/OpenBLAS, "
     "libquadmath as reference arithmetic, g++/ASan/UBSan.  Not modelled: eig1/orthoComp (second and third 3x3 "
-    "eigenvector), LAPACK itself.  The closed forms square the entries, so the magnitude range exercised for them is "
-    "2^-40..2^55 (float) and 2^-450..2^490 (double) times a matrix of norm about one; beyond it the 2x2 code "
-    "underflows (reported, not registered as a finding).")
+    "eigenvector), LAPACK itself.  Magnitudes exercised: 2^-498..2^498 (1e-150..1e150) for double and long double, "
+    "2^-120..2^120 for float (its whole normal range), on all paths; this relies on the max-norm preconditioning of the "
+    "2x2 path (fixes/C08_ev2_scaling.patch), without which the squares formed by the 2x2 closed form under/overflow.")
 TECHNIQUE = ("Lean 4 proof over a generic closed-form model + translator for formulas and thresholds + differential "
              "correspondence (bit-exact on exact inputs) + binary128 property oracle")
 TRANSLATORS = [tr_c08.translate]
@@ -45,7 +45,7 @@ RULE = ("cases: sym = symmetric n x n (n=1..3 closed form, 4..8 LAPACK, and LAPA
         "integers} and structures {random rotations incl. nearly-identity and 45 degree, exactly diagonal, nearly diagonal "
         "(perturbation 1e-2..1e-20), single plane rotation, small integer matrices}, normalised to max entry in [1,2) and "
         "executed at scale 2^k, k over the whole supported range with bias to both ends, plus the same matrix at 2^0 for "
-        "scale equivariance; ev2x/ev3x = exact integer/dyadic inputs (Pythagorean discriminants, near-identity around the "
+        "scale equivariance; ev2x/ev3x = exact integer/dyadic inputs with power-of-two max norm (Pythagorean discriminants, near-identity around the "
         "64 eps threshold, 3x3 off-diagonals around sqrt(eps)) compared bit-for-bit with the model; hand* = LAPACK hand-over "
         "through a recording fake ?syev/?geev; nsd/nsf = non-symmetric routines on Q T Q^T (real Schur form with and "
         "without 2x2 rotation blocks), integer triangular matrices and embedded rotations.  Oracle tolerances: eigenvalue "
@@ -54,7 +54,7 @@ RULE = ("cases: sym = symmetric n x n (n=1..3 closed form, 4..8 LAPACK, and LAPA
         "| |v|^2 - 1 | <= 256 eps; trace within n*1024 eps |A|_2; orthogonality |v_i.v_j| <= tol |A| / |l_i - l_j| for "
         "eigenvalue pairs that coincide exactly (then <= tol) or differ by more than tol |A|; non-symmetric: "
         "sum lambda^m = tr A^m for m = 1..n within 1024 eps m n |A|_F^m, |A v - lambda v| <= 1024 eps |A|_F |v|.  "
-        "Observed maxima on the repaired tree over 10^6 cases: 51 eps (2x2), 13 eps (LAPACK), 1.02 sqrt(eps) (3x3).  "
+        "Observed maxima on the repaired tree over 10^6 cases: 64 eps (2x2), 14 eps (LAPACK), 1.15 sqrt(eps) (3x3).  "
         "distinct = distinct op lines; non-trivial = every case except 1x1 matrices and hand-over ops that never reach LAPACK")
 ASSUMPTIONS = [
     "the Lean model lean/DuneVerif/Model/C08.lean is hand-written control flow around translated formulas; its fidelity "
@@ -63,8 +63,9 @@ ASSUMPTIONS = [
     "formulas and thresholds (p, p2, q, clamp, eigenvalue assignments, identity threshold, candidate columns, cross "
     "product, 3x3 p1/q/p2/p/r/phi/eigenvalue formulas, diagonal thresholds, sort flag) are regenerated from fmatrixev.hh "
     "by tools/translators/tr_c08.py",
-    "closed-form magnitude range exercised: 2^-40..2^55 (float), 2^-450..2^490 (double), 2^-498..2^498 (long double, "
-    "LAPACK paths for double); outside it the squares formed by the 2x2 code under/overflow",
+    "magnitude range exercised on every path: 2^-498..2^498 (double, long double), 2^-120..2^120 (float); base matrices "
+    "are normalised to max entry in [1,2) and multiplied by an exact power of two",
+    "bit-exact 2x2 cases use matrices whose max norm is a power of two, so that the preconditioning division is exact",
     "ev3_roots is proved in _partial form (diagonal matrices; trigonometric branch assuming the unclamped r in [-1,1])",
     "LAPACK (OpenBLAS) is trusted; a recording fake ?syev/?geev is interposed only for the hand-over cases",
 ]
